@@ -1,20 +1,54 @@
 """C02 -- tagged value codec (DESIGN 3/C02).
 (M) MC_Value: the reference format (spec/Value.tla) is lossless, exactly consumed, re-encodes identically and is self-delimiting
     for every value of the small-scope enumeration (depth <= 2, containers of <= 2 items, every type code).
+    MC_ValueSpine: the level-by-level judgement of deep values (ValueSpine.tla) is that same format, for every spine of <= 3 (4)
+    levels.  MC_ValueObj: the value OBJECT machine (ValueObj.tla: build / every public mutator on every node / write / adopt the
+    decoded object, every order up to 2 (3) calls) keeps the content a well-formed value that round-trips, and a write is the
+    encoding of the content of that moment.
 (B) Trace_ValueEnum: the real codec is driven through every value of that enumeration (by index; TLC checks that the harness
     built the spec's value number i) and must produce the spec's bytes and read back the spec's structure.
-(A) Trace_Value: random and boundary shapes (depth <= 8 and deeper chains, wide colliding maps, 40000-item lists, length thresholds)."""
+(A) Trace_Value: random and boundary shapes (depth <= 8, wide maps whose keys collide in the table -- modulo its size and in the
+    full 32-bit hash --, 40000-item lists, length thresholds) and DEEP values: chains of 64 .. 5000 (thorough 20000) containers of
+    mixed kinds with and without siblings, logged by their spine (gen deep).
+(O) Trace_ValueObj: one real value object is written, changed through every public mutator on itself or on a child obtained
+    from it (every chain of container kinds x every level x every mutator: gen mutenum; random: gen mut), and written again;
+    every write is judged against the content the calls define at that moment."""
+from concurrent.futures import ThreadPoolExecutor
 
 
 def body(run):
-    run.mc("MC_Value", cfg="MC_Value_thorough.cfg" if run.thorough() else "MC_Value.cfg", coverage=False)
+    th = run.thorough()
+
+    # the design-level runs do not depend on the driver: they run beside it (one TLC at a time)
+    def design():
+        w = run.pick(4, 12)
+        run.mc("MC_Value", cfg="MC_Value_thorough.cfg" if th else "MC_Value.cfg", coverage=False, workers=run.pick(8, 16))
+        run.mc("MC_ValueSpine", cfg="MC_ValueSpine_thorough.cfg" if th else "MC_ValueSpine.cfg", workers=w)
+        run.mc("MC_ValueObj", cfg="MC_ValueObj_thorough.cfg" if th else "MC_ValueObj.cfg", workers=w)
+
+    pool = ThreadPoolExecutor(max_workers=1)
+    mcs = pool.submit(design)
+    try:
+        traces(run, th)
+    finally:
+        pool.shutdown(wait=True)
+    mcs.result()          # a failure of the design runs is raised here
+
+
+def traces(run, th):
     out, meta = run.drive("c02")
     run.absorb(meta)
     run.validate(out, meta, timeout=3000)
     run.selftest(out, meta, gen="rand", spec="Trace_Value", field="out")
-    run.selftest(out, meta, gen="enum", spec="Trace_ValueEnumT" if run.thorough() else "Trace_ValueEnum", field="i")
+    # a deep value is judged twice from the same calls (RTd, RTs): removing one of the two events is no error
+    run.selftest(out, meta, gen="deep", spec="Trace_Value", field="out", removed=False)
+    run.selftest(out, meta, gen="enum", spec="Trace_ValueEnumT" if th else "Trace_ValueEnum", field="i")
+    # object histories: corrupted bytes of a write, and a call that is not reported (the content moves on without the specification)
+    run.selftest(out, meta, gen="mutenum", spec="Trace_ValueObj", field="out", remove_match={"ev": "Mut"})
     run.assumptions += [
         "the value handed to the spec is the projection of the generator's shape (standard library only); the value read back is projected from the real object's exported fields and public getters, containers in the order their public enumeration yields",
         "arrays of more than 32767 elements and NaN-free-ness are not assumed: NaN bit patterns are part of the inputs; element counts beyond what the count fields can represent are outside the property",
         "FLOAT_SUMMARY (47) has no constructor and is treated as an unknown tag",
+        "object histories: the harness reports calls and arguments only, the content at each write is derived by ValueObj.tla (Put on a present key replaces in place, PutAll = Put of every entry, NewList = Put of an empty list); Read into a container is only exercised on an empty one (what reading into a used container means is outside the property); summaries are changed through their exported fields (Add/AddCount arithmetic is not this property's)",
+        "deep values are described by their spine (one record per level); up to 130 (thorough 300) levels the spine is expanded and judged by the recursive reference operators, beyond that level by level (ValueSpine.tla), which MC_ValueSpine shows to be the same format; keys with equal full hashes are chosen by search / CRC-32 suffix forgery and kept only if golib's own hash agrees (choice of inputs, never a verdict)",
     ]
